@@ -384,7 +384,12 @@ func (tr *trans) store(st State, l *Loc, v Term) {
 		}
 		tr.store(st, l.base, tr.vc.mkStruct(l.base.ty, fs))
 	case locElem:
-		tr.store(st, l.base, store(tr.load(st, l.base), l.ix, v))
+		oa := tr.load(st, l.base)
+		tr.store(st, l.base, store(oa, l.ix, v))
+		// consequence of the store, stated from the old elements' side: every element read before has a
+		// named counterpart after (so that existential facts about elements survive the write)
+		na := tr.load(st, l.base)
+		tr.vc.assume(fmt.Sprintf("(forall ((jj Int)) (! (= (select %s jj) (ite (= jj %s) %s (select %s jj))) :pattern ((select %s jj))))", na, l.ix, v, oa, oa))
 	case locGlobal:
 		tr.setState(st, tr.globalVar(l.g), v)
 	}
@@ -1321,6 +1326,11 @@ func (tr *trans) rangeSliceOf(li *loopInfo) ssa.Value {
 			}
 			inc, ok := ia.Index.(*ssa.BinOp)
 			if ok && inc.Op == token.ADD && inc.X == phi {
+				// the ranged-over value is evaluated once, before the loop (x[i] = ... in the body indexes a
+				// value loaded inside the loop)
+				if xi, isInstr := ia.X.(ssa.Instruction); isInstr && xi.Block() != nil && li.blocks[xi.Block().Index] {
+					continue
+				}
 				return ia.X
 			}
 		}
@@ -1329,6 +1339,25 @@ func (tr *trans) rangeSliceOf(li *loopInfo) ssa.Value {
 }
 
 func (tr *trans) rangeSliceByName(name string) (SV, bool) {
+	// rangeindexN: the index variable of range loop N (for invariants of loops nested in it)
+	if strings.HasPrefix(name, "rangeindex") && len(name) > len("rangeindex") {
+		ord := 0
+		fmt.Sscanf(name[len("rangeindex"):], "%d", &ord)
+		for _, li := range tr.loopList {
+			if li.ord != ord {
+				continue
+			}
+			for _, in := range tr.fn.Blocks[li.head].Instrs {
+				if p, ok := in.(*ssa.Phi); ok && p.Comment == "rangeindex" {
+					if _, done := tr.vals[p]; done {
+						env := &Env{tr: tr, vc: tr.vc, errs: &tr.errs}
+						return env.intSV(tr.val(p)), true
+					}
+				}
+			}
+		}
+		return SV{}, false
+	}
 	if !strings.HasPrefix(name, "rangeslice") || len(name) <= len("rangeslice") {
 		return SV{}, false
 	}
